@@ -613,8 +613,9 @@ class PseudoNetCDFFile(PseudoNetCDFSelfReg, object):
         # right = dimevals[-1] + 1
         if method == 'bounds':
             fidx = np.interp(val, dimevals, idx, left=left, right=right)
-            if right is None or right == dimevals[-1]:
-                fidx = np.minimum(fidx, dimvals.size - 1)
+            # the top edge belongs to the last cell (also when left/right
+            # are given, in which case only values beyond it are replaced)
+            fidx = np.where(fidx == dimvals.size, dimvals.size - 1, fidx)
         else:
             fidx = np.interp(val, dimvals, idx, left=left, right=right)
 
